@@ -9,7 +9,6 @@ package main
 
 import (
 	"fmt"
-	"math/rand"
 	"os"
 	"runtime"
 	"strconv"
@@ -99,8 +98,12 @@ func main() {
 		// development aid: writes assembled specs to a directory
 		n, _ := strconv.Atoi(os.Args[3])
 		_ = os.MkdirAll(os.Args[2], 0o755)
-		for i := 0; i < n; i++ {
-			_ = os.WriteFile(fmt.Sprintf("%s/asm%d.yml", os.Args[2], i), []byte(c10.Assemble(rand.New(rand.NewSource(int64(i)+1)))), 0o644)
+		from := 0
+		if len(os.Args) > 4 {
+			from, _ = strconv.Atoi(os.Args[4]) // pool index to start at
+		}
+		for i := from; i < from+n; i++ {
+			_ = os.WriteFile(fmt.Sprintf("%s/asm%d.yml", os.Args[2], i), []byte(c10.AssembleIndex(i)), 0o644)
 		}
 		os.Exit(0)
 	case "instrument":
